@@ -301,6 +301,11 @@ fn gen_c05(tier: &Tier, rng: &mut Rng, w: usize, nw: usize, out: &mut Vec<Case>)
         }
         out.push(Case::new("history", lines));
     }
+    if tier.thorough && w == 2 % nw {
+        // 2^32 + 6 noise bytes, then a frame: counters beyond 2^32 (implementation + oracle only)
+        let f = tok(&spec::frame(&[1, 2, 3]));
+        out.push(Case::new("noise-4gib", vec![format!("dec 8 aa*4294967297,1b1b1b1b01,{} F", f)]).impl_only(true));
+    }
     // long noise runs and long payloads (counters beyond 2^8 and 2^16)
     if w == 0 {
         for n in [255usize, 256, 257, 65535, 65536, 65537, 70001] {
@@ -351,6 +356,11 @@ fn fault_events(rng: &mut Rng, s: &[u8], allow_other: bool) -> String {
 }
 
 fn gen_c15(tier: &Tier, rng: &mut Rng, w: usize, nw: usize, out: &mut Vec<Case>) {
+    if tier.thorough && w == 3 % nw {
+        // a frame followed by exactly 2^32 noise bytes: all front-ends must report the same leftover count
+        let s = format!("{},aa*4294967296", tok(&spec::frame(&[1, 2, 3])));
+        out.push(Case::new("noise-4gib", vec![format!("dec inf {} F", s), format!("rdr io inf nnn {}", s)]).impl_only(true));
+    }
     let nrand = if tier.thorough { 500_000 } else { 25_000 };
     for s in stream_family(tier, rng, w, nw, nrand) {
         let st = tok(&s);
@@ -387,6 +397,12 @@ fn gen_c17(tier: &Tier, rng: &mut Rng, w: usize, nw: usize, out: &mut Vec<Case>)
             lines.push(format!("rdr io {} {} {}", cap_tok(cap), calls('n', 24), fault_events(rng, &s, true)));
         }
         out.push(Case::new("accounting", lines));
+    }
+    if tier.thorough && w == 2 % nw {
+        // noise and an unfinished frame of more than 2^32 bytes (implementation + oracle only)
+        let f = tok(&spec::frame(&[1, 2, 3]));
+        out.push(Case::new("noise-4gib", vec![format!("dec inf aa*4294967297,1b1b1b1b01,{} F", f)]).impl_only(true));
+        out.push(Case::new("frame-4gib", vec![format!("dec inf 1b1b1b1b01010101,00*4294967300 R {} F", f)]).impl_only(true));
     }
     if w == 1 % nw {
         // unfinished transmissions of 2^16 bytes and more: counts inside a frame
